@@ -509,8 +509,8 @@ def part_from_matchfile(
 
     part.set_quarter_duration(0, divs)
     bars = np.unique([n.Measure for n in snotes])
-    t = min_time
-    t = t * 4 / beat_type_map_from_beats(min_time)
+    # (in quarters; time signatures may change before the first score note)
+    t = beats_to_quarters(min_time)
     offset = t
     bar_times = {}
 
